@@ -425,7 +425,9 @@ PROPS["C16"] = {
     "mirumad": {"quick": 3, "thorough": 4, "labels": ["U5"]},
     # D1: every draw of the recombinators comes from the generator that was passed in (a draw through rand's free functions / ThreadRng is found by z3 on the
     # path that reaches it -- under Kani such code only crashes the compiler, which is inconclusive)
-    "mirxo": {"quick": 4, "thorough": 6, "labels": ["D1"]},
+    # (soft like under C10 / C12: where the interpreter has no rule for a new code shape it is skipped -- code that does reach rand::rng() still
+    # leaves the check inconclusive through the Kani build, so nothing passes silently)
+    "mirxo": {"quick": 4, "thorough": 6, "labels": ["D1"], "soft": True},
     "bounds": {
         "quick": "self-composition: each operation is run twice from two clones of ONE symbolic 6-word tape (then all-ones): equal results (identity for selectors) and equal generator "
                  "states (cursor and per-entry-point call counters); and twice on one operator value vs on fresh values (no hidden state); populations / genomes of 3 symbolic "
